@@ -50,3 +50,12 @@ pub open spec fn hm_ref_iter_post<'a, K, V, S, A: std::alloc::Allocator>(m: &'a 
 pub assume_specification<'a, K, V, S, A: std::alloc::Allocator>[<&'a HashMap<K, V, S, A> as IntoIterator>::into_iter](m: &'a HashMap<K, V, S, A>) -> (iter: std::collections::hash_map::Iter<'a, K, V>)
     ensures
         exists|t: std::collections::hash_map::Iter<'a, K, V>| t == iter && #[trigger] hm_ref_iter_post(m, t);
+
+// blanket ToOwned for Clone types is clone(); for the repo's types clone is assumed structural
+pub assume_specification<T: Clone> [<T as std::borrow::ToOwned>::to_owned] (x: &T) -> (r: T)
+    ensures exists|t: T| t == r && #[trigger] to_owned_post(*x, t);
+pub uninterp spec fn to_owned_post<T>(x: T, r: T) -> bool;
+#[verifier::external_body]
+pub proof fn fact_to_owned_keyid()
+    ensures forall|x: KeyId, r: KeyId| #[trigger] to_owned_post(x, r) ==> r == x
+{}
